@@ -169,6 +169,14 @@ def grid_file(rec, flavour):
                 m.flat[0] = True
             elif pat == 'last':
                 m.flat[m.size - 1] = True
+        if rec.get('coordname') and dims == ('x',):
+            name = 'x'      # a masked variable named after its dimension (a coordinate variable with gaps)
+        if rec.get('nonfinite') and np.dtype(dt).kind == 'f' and m.size:
+            # valid (unmasked) cells that hold nan / inf next to the missing ones
+            d = d.copy()
+            free = [q for q in range(m.size) if not m.flat[q]]
+            for q, val in zip(free[:1] + free[-1:] if len(free) > 1 else free, (np.nan, np.inf)):
+                d.flat[q] = val
         f.vars[name] = RVar(dims, d, m, OrderedDict([('units', 'ppb')]), fill=fill, masked=True)
         f.fillkinds[name] = fk
     f.attrs['title'] = 'grid'
@@ -191,6 +199,10 @@ def grid_recs(tier, flavour):
                 for fill in fills:
                     for nt in ((2, 0) if tier == 'thorough' and pat == 'one' else (2,)):
                         out.append({'dt': dt, 'mask': [pat, fk, fill], 'nt': nt})
+                    if pat in ('one', 'none'):
+                        out.append({'dt': dt, 'mask': [pat, fk, fill], 'nt': 2, 'coordname': True})
+                        if np.dtype(dt).kind == 'f':
+                            out.append({'dt': dt, 'mask': [pat, fk, fill], 'nt': 2, 'nonfinite': True})
     return out
 
 
